@@ -73,7 +73,8 @@ func (t *Type) AddAttr(attr Attr) error {
 		return fmt.Errorf("jsonapi: attribute name is empty")
 	}
 
-	if GetAttrTypeString(attr.Type, attr.Nullable) == "" {
+	// The name of a nullable type is never empty because of the asterisk.
+	if GetAttrTypeString(attr.Type, false) == "" {
 		return fmt.Errorf("jsonapi: attribute type is invalid")
 	}
 
